@@ -63,6 +63,9 @@
 #ifndef VX_HEAD_PLANCB
 #define VX_HEAD_PLANCB 3  // which plan-outcome callbacks the root head defines: bit 0 planSucceeded, bit 1 planFailed
 #endif
+#ifndef VX_REENTRANT
+#define VX_REENTRANT 0    // 1: every callback reaches back into its machine (as user code does through the context): a const query() and, with serialization, a save()
+#endif
 #ifndef VX_BARE
 #define VX_BARE 0
 #endif
@@ -123,6 +126,8 @@ struct Payload { uint8_t b[7]; };
 struct alignas(8) Payload { uint8_t b[8]; };       // size == alignment == 8
 #elif VX_PAYLOAD == 24
 struct alignas(8) Payload { uint8_t b[24]; };
+#elif VX_PAYLOAD == 300
+struct Payload { uint8_t b[300]; };                // larger than any 8-bit byte count
 #else
 #error unsupported VX_PAYLOAD
 #endif
@@ -155,6 +160,7 @@ using ContextArg = Ctx*;
 struct EvA { int v; };
 struct EvB { long w; };   // a second event type: handled by the head and by the odd-numbered states only (machines without injections)
 struct QA { int v; };
+struct QB { int v; };      // a query handed over as a const object: handlers take const QB&
 
 // --------------------------------------------------------------------------- trace
 enum EvKind : uint8_t {
@@ -191,7 +197,7 @@ struct Ev {
 // --------------------------------------------------------------------------- decisions
 enum ActK : uint8_t { A_NONE, A_CANCEL, A_CHANGE, A_CANCEL_CHANGE, A_CHANGEW, A_CANCEL_CHANGEW, A_SUCCEED, A_FAIL, A_SUCCEED_ID, A_FAIL_ID, A_PLAN_CHANGE, A_PLAN_CHANGEW, A_PLAN_CLEAR, A_PLAN_REMOVE,
 	// composite decisions: several actions in one callback invocation
-	A_CHANGE_CANCEL, A_CHANGE2, A_FAIL_SUCCEED, A_SUCCEED_FAIL, A_SUCCEED_CHANGE, A_CHANGE_SUCCEED, A_CHANGEW_CHANGE, A_CHANGE_CHANGEW, A_CANCEL2, A_LOG_ON, A_LOG_OFF };
+	A_CHANGE_CANCEL, A_CHANGE2, A_FAIL_SUCCEED, A_SUCCEED_FAIL, A_SUCCEED_CHANGE, A_CHANGE_SUCCEED, A_CHANGEW_CHANGE, A_CHANGE_CHANGEW, A_CANCEL2, A_LOG_ON, A_LOG_OFF, A_CHANGEW_ALIAS };   // A_CHANGEW_ALIAS: changeWith(dest, *request().payload()): the argument lives in the request slot itself
 struct Act { uint8_t k, a, b, pv; };
 
 enum MenuFlag : unsigned {
@@ -216,6 +222,7 @@ struct Driver {
 	uint8_t strat[2 * 8 + 1];
 	unsigned mf = 0;
 	void* cur = nullptr;        // instance currently driven (for machine-side observations)
+	bool in_reentrant = false; int rq_n = 0; uint8_t rq_sid[16], rq_inj[16]; const void* rq_event = nullptr; bool rq_identity = true;   // re-entrant query bookkeeping
 	const void* event = nullptr; // address of the event object handed to react()/query()
 	unsigned long guard_cbs = 0;
 
@@ -318,6 +325,7 @@ template <typename SELF, typename BASE> bool thisok(const BASE* self);
 	V void react(const EvA& ev, FullControl& c) NX { visit_full(c, SID, INJ, M_REACT, VX_THISOK(SELF, BASE), &ev); } \
 	V void postReact(const EvA& ev, FullControl& c) NX { visit_full(c, SID, INJ, M_POST_REACT, VX_THISOK(SELF, BASE), &ev); } \
 	V void query(QA& ev, ConstControl& c) const NX { visit_const(c, SID, INJ, M_QUERY, VX_THISOK(SELF, BASE), &ev); } \
+	V void query(const QB& ev, ConstControl& c) const NX { visit_const(c, SID, INJ, M_QUERY, VX_THISOK(SELF, BASE), &ev); } \
 	V void exitGuard(GuardControl& c) NX { visit_guard(c, SID, INJ, M_XG, VX_THISOK(SELF, BASE)); } \
 	V void exit(PlanControl& c) NX { visit_life(c, SID, INJ, M_EXIT, VX_THISOK(SELF, BASE)); }
 
@@ -369,11 +377,14 @@ template <int I> struct StBase<I, 0> { using Type = FSM::State; };
 template <int I> struct StBase<I, 1> { using Type = FSM::StateT<Inj<I, 1>>; };
 template <int I> struct StBase<I, 2> { using Type = FSM::StateT<Inj<I, 1>, Inj<I, 2>>; };
 template <int I> struct StBase<I, 3> { using Type = FSM::StateT<Inj<I, 1>, Inj<I, 2>, Inj<I, 3>>; };
+template <int I> struct StBase<I, 4> { using Type = FSM::StateT<Inj<I, 1>, Inj<I, 2>, Inj<I, 3>, Inj<I, 4>>; };
+template <int I> struct StBase<I, 5> { using Type = FSM::StateT<Inj<I, 1>, Inj<I, 2>, Inj<I, 3>, Inj<I, 4>, Inj<I, 5>>; };
 template <int K> struct RtBase;
 template <> struct RtBase<0> { using Type = FSM::State; };
 template <> struct RtBase<1> { using Type = FSM::StateT<RInj<1>>; };
 template <> struct RtBase<2> { using Type = FSM::StateT<RInj<1>, RInj<2>>; };
 template <> struct RtBase<3> { using Type = FSM::StateT<RInj<1>, RInj<2>, RInj<3>>; };
+template <> struct RtBase<4> { using Type = FSM::StateT<RInj<1>, RInj<2>, RInj<3>, RInj<4>>; };
 
 static constexpr int INJ_OF[8] = {VX_INJ_S0, VX_INJ_S1, VX_INJ_S2, VX_INJ_S3, 0, 0, 0, 0};
 static constexpr int INJ_ROOT = VX_INJ_R;
@@ -583,10 +594,16 @@ inline void poison_vacant(Inst& m) {
 inline void poison_vacant(Inst&) {}
 #endif
 
+#if VX_REENTRANT
+uint8_t reentrant_probe(Inst& m);   // defined in fsmx_ops.hpp (needs the canonical buffers); returns ctl bits 0x20 (query misdelivered) / 0x10 (save not canonical)
+#endif
 template <typename C>
 inline void obs_common(Ev& e, C& c) {
 	Inst* m = curInst();
 	poison_vacant(*m);
+#if VX_REENTRANT
+	if (!G.in_reentrant) e.ctl |= reentrant_probe(*m);
+#endif
 	if (uint8_t* mk = state_mark(*m, e.sid)) { if (*mk) e.ctl |= 0x40; if (!e.inj && e.meth == M_ENTER) *mk = 1; if (!e.inj && e.meth == M_EXIT) *mk = 0; }
 	e.ctl_sid = c.stateId();
 	uint8_t cm = 0, mm = 0;
@@ -610,6 +627,7 @@ inline void obs_common(Ev& e, C& c) {
 		if (e.planbool == 1) { e.pfirst = rd_task(cp.first()); e.plast = rd_task(cp.last());
 #ifdef VX_PLAN_FIRSTLAST
 			if (!(rd_task(p.first()) == e.pfirst) || !(rd_task(p.last()) == e.plast)) e.planbool = 3;
+			{ const auto& constPlan = p; if (!(rd_task(constPlan.first()) == e.pfirst) || !(rd_task(constPlan.last()) == e.plast)) e.planbool = 3; }   // the const overloads of the mutable plan
 #endif
 		}
 	}
@@ -705,6 +723,12 @@ inline void perform_full(C& c, const Act& a, uint8_t sid, uint8_t inj, uint8_t m
 	case A_CHANGE_SUCCEED: do_change(c, sid, inj, meth, a.a, 0); do_report(c, sid, inj, meth, true, false, 0); break;
 #endif
 	case A_CHANGE2: do_change(c, sid, inj, meth, a.a, 0); do_change(c, sid, inj, meth, a.b, 0); break;
+#if VX_PAYLOAD
+	case A_CHANGEW_ALIAS: { const Payload* pp = c.request().payload(); if (pp) { const uint8_t tag = rd_payload(reinterpret_cast<const uint8_t*>(pp)); Inst* mm = curInst(); const uint8_t before = mm->activeStateId();
+			c.changeWith(static_cast<ffsm2::StateID>(a.a), *pp);
+			Ev& e = G.push(); e.kind = EV_CHANGE; e.sid = sid; e.inj = inj; e.meth = meth; e.a = a.a; e.b = tag; e.req = rd_tx(c.request()); e.c = e.req.o; e.r = (mm->activeStateId() == before) ? 1 : 0; }
+		else do_change(c, sid, inj, meth, a.a, 0); } break;
+#endif
 #if VX_LOG
 	case A_LOG_ON: case A_LOG_OFF: { vx_attach_logger(a.k == A_LOG_ON); Ev& e = G.push(); e.kind = EV_LOG_ATTACH; e.sid = sid; e.inj = inj; e.meth = meth; e.a = a.k == A_LOG_ON; } break;
 #endif
@@ -785,6 +809,7 @@ inline void visit_life(C& c, uint8_t sid, uint8_t inj, uint8_t meth, bool thisok
 
 template <typename C>
 inline void visit_const(C& c, uint8_t sid, uint8_t inj, uint8_t meth, bool thisok, const void* ev) {
+	if (G.in_reentrant) { if (G.rq_n < 16) { G.rq_sid[G.rq_n] = sid; G.rq_inj[G.rq_n] = inj; ++G.rq_n; } if (ev != G.rq_event || !thisok) G.rq_identity = false; (void)c; return; }   // a query a callback sent to its own machine: counted on the side
 	Ev& e = G.push(); e.kind = EV_CB; e.sid = sid; e.inj = inj; e.meth = meth; e.ctl = 4;
 	if (thisok) e.flags |= OF_THIS;
 	if (ev == G.event) e.flags |= OF_EVENT;
@@ -853,6 +878,7 @@ inline void construct(int slot, uint8_t prefill, bool withLogger) {
 }
 
 // --------------------------------------------------------------------------- canonical key: every named field of CoreT, no padding
+static constexpr size_t KEYMAX = 4096;   // upper bound of the canonical key (payloads of several hundred bytes appear in it a few times)
 struct KeyW { uint8_t* p; size_t n; void u8(uint8_t v) { p[n++] = v; } void raw(const void* s, size_t k) { memcpy(p + n, s, k); n += k; } };
 
 template <typename T> inline void key_tx(KeyW& w, const T& t) {
